@@ -280,6 +280,39 @@ func enlargeArgs(args []any, salt int) []any {
 	return out
 }
 
+// wideInsertTwice: an INSERT of a struct with 70 optional columns is run twice on one Statement with as many
+// omitted columns, but other ones, among the columns beyond the 64th (and among the first ones): the second
+// run sends what a fresh Statement sends.
+func wideInsertTwice(viol func(prop, name, q, detail string)) {
+	q := "INSERT INTO t (*) VALUES ($HugeOmit.*)"
+	mk := func(zero ...int) HugeOmit {
+		var h HugeOmit
+		v := reflect.ValueOf(&h).Elem()
+		for i := 0; i < v.NumField(); i++ {
+			v.Field(i).SetInt(int64(100 + i))
+		}
+		for _, z := range zero {
+			v.Field(z).SetInt(0)
+		}
+		return h
+	}
+	for _, pair := range [][2][]int{{{65}, {64}}, {{69}, {66}}, {{3}, {4}}, {{1, 65}, {2, 66}}, {{63}, {64}}} {
+		used, err := sqlair.Prepare(q, HugeOmit{})
+		fresh, err2 := sqlair.Prepare(q, HugeOmit{})
+		if err != nil || err2 != nil {
+			viol("C07", "well-typed-statement-rejected", q, fmt.Sprint(err, err2))
+			return
+		}
+		runOnce(used, []any{mk(pair[0]...)})
+		got, want := runOnce(used, []any{mk(pair[1]...)}), runOnce(fresh, []any{mk(pair[1]...)})
+		if got != want {
+			d := fmt.Sprintf("columns %v zero in the first run, %v in the second; fresh Statement: %s  used Statement: %s", pair[0], pair[1], trunc(want, 200), trunc(got, 200))
+			viol("C16", "depends-on-previous-run", q, d)
+			viol("C04", "depends-on-previous-run", q, d)
+		}
+	}
+}
+
 // firstUseConcurrent: a struct type that is known to the library only through a member (its list of
 // members has not been asked for yet) is used with an asterisk for the first time by several goroutines
 // at once.  Every such Prepare succeeds, and afterwards the type's columns are its tags, each once, in
@@ -396,6 +429,7 @@ func cmdDeterm(args []string) int {
 	g := &bindGen{r: r, f: &filler{r: r.fork(), zeroP: 2, nilP: 1}}
 	st := determStats{Results: map[string]int{}}
 	st.FirstUse = firstUseConcurrent(viol2)
+	wideInsertTwice(viol2)
 	var prevQ, prevA1 string
 	var prevSamples, prevArgs []any
 	for st.Cases < *n {
@@ -590,12 +624,19 @@ func cmdDeterm(args []string) int {
 		// Prepare of this query and of the previous one from many goroutines at once: each call accepts or
 		// rejects as it does alone, with the same error
 		if prevQ != "" && st.Cases%2 == 1 {
-			outcome := func(q string, samples []any) string {
-				_, err := sqlair.Prepare(q, samples...)
+			outcomeWith := func(q string, samples, args []any) string {
+				stmt, err := sqlair.Prepare(q, samples...)
 				if err != nil {
 					return "ERR " + err.Error()
 				}
-				return "OK"
+				// what the prepared statement sends to the driver (the query's own text, expanded)
+				return "OK " + runOnce(stmt, args)
+			}
+			outcome := func(q string, samples []any) string {
+				if q == prevQ {
+					return outcomeWith(q, samples, prevArgs)
+				}
+				return outcomeWith(q, samples, argsA)
 			}
 			wantCur, wantPrev := outcome(c.query, c.samples), outcome(prevQ, prevSamples)
 			var wg sync.WaitGroup
@@ -632,6 +673,7 @@ func cmdDeterm(args []string) int {
 			if bad != "" {
 				viol("concurrent-prepare-differs", c.query, bad)
 				viol2("C07", "concurrent-prepare-differs", c.query, bad)
+				viol2("C01", "concurrent-prepare-differs", c.query, bad)
 			}
 		}
 		caseStart.Store(0)
